@@ -228,11 +228,12 @@ func init() {
 		Runs: []RunDef{
 			{Fn: "H_two", Tier: "quickonly", Sched: true, Preempt: 2, Reach: []string{"end"}},
 			{Fn: "H_two_fold", Tier: "quick", Sched: true, Preempt: 2, Reach: []string{"end"}},
+			{Fn: "H_two_autoload", Fuel: 60_000_000, Tier: "quick", Sched: true, Preempt: 1, Reach: []string{"end"}, NativeTwin: "N_autoload_same_file"},
 			{Fn: "H_two", Tier: "thorough", Sched: true, Preempt: 4, Reach: []string{"end"}},
 		},
-		Rule:        rule + "; two goroutines issue one call each out of {AddClass, AddFunc, AddInterface, GetClass, GetFunc, SetConstant, GetConstant, EnsureGlobalZVal} on names from a 2-name pool (all 64 x 4 combinations); the five registry maps are marked shared, so every map access and every lock operation is a schedule point and all interleavings within the preemption bound are explored; obligations: no happens-before race on a registry map (vector clocks over RWMutex edges), results equal those of one of the 2 sequential orders run on a fresh VM in the same path, a duplicate name accepted at most once; H_two_fold drives the case-insensitive lookup path (spellings a / A, with a class of the other spelling registered beforehand or not)",
+		Rule:        rule + "; two goroutines issue one call each out of {AddClass, AddFunc, AddInterface, GetClass, GetFunc, SetConstant, GetConstant, EnsureGlobalZVal} on names from a 2-name pool (all 64 x 4 combinations); the five registry maps are marked shared, so every map access and every lock operation is a schedule point and all interleavings within the preemption bound are explored; obligations: no happens-before race on a registry map (vector clocks over RWMutex edges), results equal those of one of the 2 sequential orders run on a fresh VM in the same path, a duplicate name accepted at most once; H_two_fold drives the case-insensitive lookup path (spellings a / A, with a class of the other spelling registered beforehand or not); H_two_autoload: two goroutines load classes from files (virtual file system) through GetOrLoadClass / LoadPkg, preemption bound 1",
 		Assumptions: []string{"sync.RWMutex modelled at contract level (readers/writer counts, unlock->lock and RUnlock->Lock happens-before edges)", "bounded: 2 goroutines x 1 call, preemption bound 2 (quick) / 4 (thorough)"},
-		Outside:     []string{"10^2-10^4 calls, 3-16 goroutines, GOMAXPROCS effects (stress testing is a different technique family)", "LoadPkg autoloading from files, call-depth counters"},
+		Outside:     []string{"10^2-10^4 calls, 3-16 goroutines, GOMAXPROCS effects (stress testing is a different technique family)", "call-depth counters, exception handler slots, spl autoload callback list; autoload under preemption bounds above 1"},
 	})
 
 	reg(Check{
